@@ -9,9 +9,11 @@ import wire
 from props import c02, c09, c11, c12, c20
 from vlib import Case, lang_lines, vmrun_lines
 
-# every case of this module is a direct operator / builtin / codec application whose size the oracle computes:
-# a "capacity overflow" panic is never excused here
-MEMORY_EXCLUSION_IN_UNCONSTRAINED = False
+# the direct operator / builtin / format applications are cases whose size the oracle computes: a "capacity overflow" panic or an
+# allocator refusal is never excused there.  In a generated PROGRAM that the reference semantics left unconstrained before it
+# reached the request (verdict `nopanic`), the size is not known to the oracle: there the statement's memory exclusion applies.
+def MEMORY_EXCLUSION_IN_UNCONSTRAINED(c):
+    return c.line.startswith(("eval ", "vmrun ", "filt "))
 
 RULE = ("no-panic oracle over four in-process engines: (1) every operator x operand-kind pair x boundary values through the real VM (op/un), (2) every builtin that is safe to call "
         "in-process x arity 0..4 x kinds x boundary values (builtin), (3) format strings incl. malformed ones, (4) generated programs plus deep recursion (unbounded, zero-argument), "
